@@ -58,10 +58,34 @@ package remap
 //@   ensures #unique x <= r.nps[result] && (result == 0 || r.nps[result-1] < x)
 //@   modifies
 //
-//@ func XXHash
-//@   trusted hash function: any uint64, no side effects; may panic for unsupported key types (ToBytes)
-//@   maypanic
+// ---- the hash route: XXHash and ToBytes write nothing the caller can see (frame: only fresh memory), so routing a key
+// cannot change a key, another key's bytes or any shared state; ToBytes gives an integer key its little-endian bytes
+// and hands a byte-slice key back unchanged. The hash value itself is the library's (xxhash, a function of the bytes).
+//@ func extern github.com/cespare/xxhash/v2.Sum64(b)
 //@   modifies
+//@ func extern github.com/cespare/xxhash/v2.Sum64String(s)
+//@   modifies
+//@ func Bs.ToBytes
+//@   trusted user-implemented interface method: returns the key's bytes, no side effects
+//@   modifies
+//@ func XXHash
+//@   maypanic
+//@   modifies region($alloc)
+//@ func ToBytes
+//@   maypanic
+//@   ensures #u8 tag(i) == tagof(uint8) ==> len(result) == 1 && result[0] == uint8(i)
+//@   ensures #i8 tag(i) == tagof(int8) ==> len(result) == 1 && result[0] == uint8(int8(i))
+//@   ensures #i16 tag(i) == tagof(int16) ==> len(result) == 2 && result[0] == uint8(uint16(int16(i))) && result[1] == uint8(uint16(int16(i)) >> 8)
+//@   ensures #u16 tag(i) == tagof(uint16) ==> len(result) == 2 && result[0] == uint8(uint16(i)) && result[1] == uint8(uint16(i) >> 8)
+//@   ensures #i32 tag(i) == tagof(int32) ==> len(result) == 4 && result[0] == uint8(uint32(int32(i))) && result[1] == uint8(uint32(int32(i)) >> 8) && result[2] == uint8(uint32(int32(i)) >> 16) && result[3] == uint8(uint32(int32(i)) >> 24)
+//@   ensures #u32 tag(i) == tagof(uint32) ==> len(result) == 4 && result[0] == uint8(uint32(i)) && result[1] == uint8(uint32(i) >> 8) && result[2] == uint8(uint32(i) >> 16) && result[3] == uint8(uint32(i) >> 24)
+//@   ensures #i64 tag(i) == tagof(int64) ==> len(result) == 8 && result[0] == uint8(uint64(int64(i))) && result[1] == uint8(uint64(int64(i)) >> 8) && result[2] == uint8(uint64(int64(i)) >> 16) && result[3] == uint8(uint64(int64(i)) >> 24) && result[4] == uint8(uint64(int64(i)) >> 32) && result[5] == uint8(uint64(int64(i)) >> 40) && result[6] == uint8(uint64(int64(i)) >> 48) && result[7] == uint8(uint64(int64(i)) >> 56)
+//@   ensures #u64 tag(i) == tagof(uint64) ==> len(result) == 8 && result[0] == uint8(uint64(i)) && result[1] == uint8(uint64(i) >> 8) && result[2] == uint8(uint64(i) >> 16) && result[3] == uint8(uint64(i) >> 24) && result[4] == uint8(uint64(i) >> 32) && result[5] == uint8(uint64(i) >> 40) && result[6] == uint8(uint64(i) >> 48) && result[7] == uint8(uint64(i) >> 56)
+//@   ensures #int tag(i) == tagof(int) ==> len(result) == 8 && result[0] == uint8(uint64(int(i))) && result[1] == uint8(uint64(int(i)) >> 8) && result[2] == uint8(uint64(int(i)) >> 16) && result[3] == uint8(uint64(int(i)) >> 24) && result[4] == uint8(uint64(int(i)) >> 32) && result[5] == uint8(uint64(int(i)) >> 40) && result[6] == uint8(uint64(int(i)) >> 48) && result[7] == uint8(uint64(int(i)) >> 56)
+//@   ensures #uint tag(i) == tagof(uint) ==> len(result) == 8 && result[0] == uint8(uint64(uint(i))) && result[1] == uint8(uint64(uint(i)) >> 8) && result[2] == uint8(uint64(uint(i)) >> 16) && result[3] == uint8(uint64(uint(i)) >> 24) && result[4] == uint8(uint64(uint(i)) >> 32) && result[5] == uint8(uint64(uint(i)) >> 40) && result[6] == uint8(uint64(uint(i)) >> 48) && result[7] == uint8(uint64(uint(i)) >> 56)
+//@   ensures #string tag(i) == tagof(string) ==> len(result) == len(string(i))
+//@   ensures #bytes tag(i) == tagof([]byte) ==> result == []byte(i)
+//@   modifies region($alloc)
 //
 //@ func HitGroup.Hit
 //@   trusted user-implemented interface method: assumed to return a value without side effects
